@@ -1,7 +1,7 @@
 (** C02 — Dense and readable generators emit code that means the same tree.
     Only statements, closed by [exact], with their assumptions printed. *)
 From DL Require Import Lib.Bytes Model.Lexer Model.DenseGen Model.Precedence Model.C02Spec Proof.DenseGenFacts
-  Proof.PrecedenceFacts Proof.C02FrozenTables Proof.C02Examples Proof.C02StatementFacts.
+  Proof.PrecedenceFacts Proof.C02FrozenTables Proof.C02Examples Proof.C02StatementFacts Proof.C02DeclFacts.
 Open Scope N_scope.
 
 Theorem C02_no_fusion_stream : forall T span items,
@@ -86,3 +86,19 @@ Print Assumptions C02_semicolon_rule_refuted.
 Check C02_semicolon_rule_refuted :
   exists e, ends_prefix (fun a => a <? 50) e = false
             /\ closes_prefix (fun a => a <? 50) (tokens_of_expr Proof.C02FrozenTables.ptbl e) = true.
+
+Theorem C02_const_padding_neutral : forall (skip : dval -> bool) n vals,
+  (forall v, last_dval vals = Some v -> skip v = d_multi v) ->
+  forall i, receives (written_values skip n vals) i = receives vals i.
+Proof. exact const_padding_neutral. Qed.
+Print Assumptions C02_const_padding_neutral.
+Check C02_const_padding_neutral : forall (skip : dval -> bool) n vals,
+  (forall v, last_dval vals = Some v -> skip v = d_multi v) ->
+  forall i, receives (written_values skip n vals) i = receives vals i.
+
+Theorem C02_const_padding_refuted_for_wrong_decision :
+  exists skip n vals i, receives (written_values skip n vals) i <> receives vals i.
+Proof. exact const_padding_refuted_for_wrong_decision. Qed.
+Print Assumptions C02_const_padding_refuted_for_wrong_decision.
+Check C02_const_padding_refuted_for_wrong_decision :
+  exists skip n vals i, receives (written_values skip n vals) i <> receives vals i.
